@@ -48,6 +48,8 @@ func c08Failing(keys []val.Item, thorough, twoIdx bool) []drv.Op {
 		add("Upd(unused :value)", drv.Op{K: drv.KUpd, Key: k, Upd: rx.U(rx.Set("a", rx.RV(":v"))), Values: map[string]val.V{":v": val.S("z"), ":w": val.S("z")}})
 		add("Upd(undefined :value)", drv.Op{K: drv.KUpd, Key: k, Upd: rx.U(rx.Set("a", rx.RV(":undef")))})
 		add("Upd(undefined #name)", drv.Op{K: drv.KUpd, Key: k, Upd: rx.U(rx.Set("#u", rx.RV(":v"))), Values: sv})
+		add("Del(unused #name)", drv.Op{K: drv.KDel, Key: k, Cond: rx.Exists("h"), Names: map[string]string{"#x": "a"}})
+		add("Del(unused :value)", drv.Op{K: drv.KDel, Key: k, Cond: rx.Exists("h"), Values: sv})
 		add("Del(undefined :value in condition)", drv.Op{K: drv.KDel, Key: k, Cond: rx.Eq("a", ":undef")})
 		// syntax errors
 		add("Put(condition syntax error)", drv.Op{K: drv.KPut, Item: with(k, "a", val.S("new")), CondStr: sp("a = = :v"), Values: sv})
@@ -90,10 +92,14 @@ func c08Failing(keys []val.Item, thorough, twoIdx bool) []drv.Op {
 	}
 	add("Query(unknown table)", drv.Op{K: drv.KQuery, Table: "nope", KeyCond: rx.Eq("h", ":v"), Values: sv})
 	add("Scan(unknown table)", drv.Op{K: drv.KScan, Table: "nope"})
+	add("Scan(unused :value)", drv.Op{K: drv.KScan, Filter: rx.Exists("h"), Values: sv})
+	add("Query(unused #name)", drv.Op{K: drv.KQuery, KeyCond: rx.Eq("h", ":v"), Values: sv, Names: map[string]string{"#x": "a"}})
 	add("Scan(filter syntax error)", drv.Op{K: drv.KScan, FiltStr: sp("a = ")})
 	add("Query(key condition syntax error)", drv.Op{K: drv.KQuery, KeyStr: sp("h = :v AND"), Values: sv})
 	add("UpdateTable(delete unknown index)", drv.Op{K: drv.KDeleteGSI, Index: "nosuchindex"})
 	add("UpdateTable(delete unknown index, redefining g as N)", drv.Op{K: drv.KDeleteGSI, Index: "nosuchindex", IdxCfg: &drv.IndexCfg{Hash: "g", HashT: "N"}})
+	add("UpdateTable(create gsz, then delete unknown index)", drv.Op{K: drv.KUpdateTbl, Changes: []drv.IdxChange{{Create: &drv.IndexCfg{Name: "gsz", Hash: "a", HashT: "S"}}, {Delete: "nosuchindex"}}})
+	add("UpdateTable(delete gsi, then delete unknown index)", drv.Op{K: drv.KUpdateTbl, Changes: []drv.IdxChange{{Delete: "gsi"}, {Delete: "nosuchindex"}}})
 	add("UpdateTable(unknown table)", drv.Op{K: drv.KDeleteGSI, Table: "nope", Index: "gsi"})
 	add("DescribeTable(unknown table)", drv.Op{K: drv.KDescribe, Table: "nope"})
 	add("CreateTable(existing)", drv.Op{K: drv.KCreate, Cfg: &drv.TableCfg{Hash: "x", HashT: "S", Billing: "PAY_PER_REQUEST"}})
@@ -113,15 +119,31 @@ func C08(run *ev.Run, tier string) map[string]interface{} {
 	}
 	cfg := c03cfg{name: "GSI-hash", cfg: drv.TableCfg{Hash: "h", HashT: "S", Billing: "PAY_PER_REQUEST", GSI: []drv.IndexCfg{{Name: "gsi", Hash: "g", HashT: "S"}}}, keys: keys, clearOp: false}
 	cfg2 := c03cfg{name: "two-GSI", cfg: drv.TableCfg{Hash: "h", HashT: "S", Billing: "PAY_PER_REQUEST", GSI: []drv.IndexCfg{{Name: "gsi", Hash: "g", HashT: "S"}, {Name: "gsi2", Hash: "a", HashT: "S"}}}, keys: keys, clearOp: false}
+	// an index created after items that are ill-typed for it were stored (they stay out of it):
+	// every later write to such an item is rejected, and must be rejected without effect
+	cfg3 := c03cfg{name: "late-GSI", cfg: drv.TableCfg{Hash: "h", HashT: "S", Billing: "PAY_PER_REQUEST", GSI: []drv.IndexCfg{{Name: "gsi", Hash: "g", HashT: "S"}}}, keys: keys[:2], gsi2: true}
 	u := Universe{Keys: map[string][]val.Item{"tab": keys, "other": {}}}
 	failCount := 0
 	total, per := exploreBoth(run, func(newImpl func() drv.Driver, dn string) []mc.Sys {
 		var out []mc.Sys
-		for i, cfg := range []c03cfg{cfg, cfg2} {
+		for i, cfg := range []c03cfg{cfg, cfg2, cfg3} {
 			cfg := cfg
 			writes := c03Alphabet(cfg)
 			failing := c08Failing(keys, thorough, i == 1)
 			failCount = len(failing)
+			if i == 2 {
+				// no failing menu here: the writes themselves fail or succeed depending on the state
+				failing = nil
+				base := writes
+				writes = func(m *model.Model) []drv.Op {
+					ops := base(m)
+					for _, k := range cfg.keys {
+						ops = append(ops, drv.Op{K: drv.KPut, Tag: "Put(a is a number)", Table: "tab", Item: with(k, "a", val.N("5"))})
+						ops = append(ops, drv.Op{K: drv.KUpd, Tag: "Upd(SET b)", Table: "tab", Key: k, Upd: rx.U(rx.Set("b", rx.RV(":v"))), Values: map[string]val.V{":v": val.S("b")}})
+					}
+					return ops
+				}
+			}
 			out = append(out, mc.Sys{
 				Name:    "C08/" + cfg.name,
 				NewImpl: newImpl,
@@ -150,7 +172,7 @@ func C08(run *ev.Run, tier string) map[string]interface{} {
 	cov := total.Coverage()
 	cov["per_system"] = per
 	cov["failing_request_kinds"] = failCount
-	cov["alphabet"] = "index-affecting writes of C03 (one system with a GSI on g:S, one with two GSIs on g:S and a:S where an item can be ill-typed for either index) that build every reachable state, plus in every state the menu of failing requests: malformed / ill-typed keys for Get/Put/Upd/Del, unknown table, unused and undefined placeholders, syntax errors in condition/update/filter/key condition, ill-typed operands, failed conditions, index-key type mismatch on Put and Upd, key-changing updates, batches with one invalid request, failing table-management calls"
+	cov["alphabet"] = "index-affecting writes of C03 (one system with a GSI on g:S, one with two GSIs on g:S and a:S where an item can be ill-typed for either index, one where a GSI on a:S is created and deleted around items whose a is a number) that build every reachable state, plus in every state the menu of failing requests: malformed / ill-typed keys for Get/Put/Upd/Del, unknown table, unused and undefined placeholders, syntax errors in condition/update/filter/key condition, ill-typed operands, failed conditions, index-key type mismatch on Put and Upd, key-changing updates, batches with one invalid request, failing table-management calls"
 	cov["oracle"] = "the model predicts rejection and no change: the response must be an error (or the documented syntax-error panic) and the full observation after the call must equal the model; the successor state is expanded like any other so that latent corruption shows up in later histories"
 	return cov
 }
